@@ -184,7 +184,7 @@ func short8(s string) string {
 }
 
 func runC05(r *core.Run) {
-	r.Rule("every script = pay answer in {success,pending,failed,error} x status-lookup sequence of length 0..3 over {notfound,error,failed,pending,succeeded} x assignment of each poll to {melt-quote poll, proof-state check} (quick: up to three assignments per script, and the MPP entry point with lookup sequences of length <= 2 and one assignment; thorough: all, for both entry points); non-trivial = distinct scripts in which at least one Lightning answer was consumed and every observation (API answers, persisted state read through a second connection, in-flight observation, follow-up swap / second melt) was compared with the decision table")
+	r.Rule("every script = pay answer in {success,pending,failed,error} x status-lookup sequence of length 0..3 over {notfound,error,failed,pending,succeeded} x assignment of each poll to {melt-quote poll, proof-state check} (quick: up to three assignments per script, and the MPP entry point with lookup sequences of length <= 2 and one assignment; thorough: all, for both entry points); a second melt of the unresolved quote with other, unspent inputs must be refused and change nothing; six directed cases re-send the byte-identical melt request over HTTP after polls and Lightning outcomes (every 200 answer must agree with the persisted state, a re-sent request after a release must reach the backend); non-trivial = distinct scripts in which at least one Lightning answer was consumed and every observation (API answers, persisted state read through a second connection, in-flight observation, follow-up swap / second melt) was compared with the decision table")
 	r.Assume("abstract states: L = quote PENDING + proofs PENDING, S = quote PAID with the payment's preimage + proofs SPENT, R = quote UNPAID + proofs UNSPENT; lookups made while the pay call executes answer 'in flight' and do not consume the script")
 	type job struct {
 		pay   int
